@@ -114,6 +114,19 @@ def entries():
                    ("pushn", 32, 0xDB07FCD2 << 224), "PUSH0", "MSTORE"] + ARG0 + [("push", 4), "MSTORE", ("push", 5), ("push", 36), "MSTORE",
                    "PUSH0", "PUSH0", ("push", 68), "PUSH0", "PUSH0", ("pushn", 20, hevm), ("push", 100000), "CALL", "POP", ("label", "N")] + ret(32)
     out.append(("vm-assert-bound-to-fail", {T: main}, {"_c02_only": True}))
+    # -- JUMPI to an invalid destination: only the inputs that take the jump halt                       [fix 104420e, former F21]
+    #    (symbolic condition: plain invalid target / a 0x5b inside PUSH data / the JUMPI after an earlier branch;
+    #     decided condition: the halt leaf must carry what the path already knows)
+    main = ARG0 + [("push", 0x77), "JUMPI", ("push", 0xA1), "PUSH0", "MSTORE"] + ret(32)
+    out.append(("jumpi-symbolic-cond-invalid-target", {T: main}, {}))
+    main = ARG0 + [("push", 3), "LT", ("push", 8), "JUMPI", ("pushn", 2, 0x5B5B), "PUSH0", "MSTORE"] + ret(32)
+    out.append(("jumpi-symbolic-cond-target-in-push-data", {T: main}, {}))
+    main = ARG1 + [("ref", "Q"), "JUMPI", ("push", 1), "PUSH0", "SSTORE", ("label", "Q")] + ARG0 + ["ISZERO", ("push", 0xEE), "JUMPI",
+                   "PUSH0", "SLOAD", "PUSH0", "MSTORE"] + ret(32)
+    out.append(("jumpi-invalid-target-after-branch", {T: main}, {}))
+    main = ARG0 + [("push", 5), "EQ", ("ref", "P"), "JUMPI", ("push", 2), "PUSH0", "MSTORE"] + ret(32) + \
+           [("label", "P")] + ARG0 + [("push", 5), "EQ", ("push", 0xEF), "JUMPI", ("push", 3), "PUSH0", "MSTORE"] + ret(32)
+    out.append(("jumpi-decided-cond-invalid-target", {T: main}, {}))
     return out
 
 
